@@ -315,7 +315,55 @@ pub fn run(o: &DriveOpts, out: &mut dyn Write, tid: usize) -> Value {
                 rec.reset(&w);
             }
             first = false;
-            let kind = rng.gen_range(0..12);
+            let kind = rng.gen_range(0..14);
+            if kind >= 12 {
+                // a merge of a NON-TREE right graph (join() unifies vertices and vacates a slot): documented as "unpredictable",
+                // void for every lens, but memory safety is claimed for it too - the sanitizer watches what follows
+                let l = |i: usize| labels[i % labels.len()].clone();
+                let mut seq: Vec<HCall> = vec![];
+                for v in [0usize, 1, 2] {
+                    seq.push(HCall { h: 0, call: Call::Add { v } });
+                }
+                seq.push(HCall { h: 0, call: Call::Bind { v1: 0, v2: 1, a: l(0) } });
+                seq.push(HCall { h: 0, call: Call::Bind { v1: 1, v2: 2, a: l(1) } });
+                seq.push(HCall { h: 1, call: Call::New { n: o.n, cap: o.cap } });
+                for v in [0usize, 4, 3, 5] {
+                    seq.push(HCall { h: 1, call: Call::Add { v } });
+                }
+                seq.push(HCall { h: 1, call: Call::Bind { v1: 0, v2: 3, a: l(0) } });
+                if o.n >= 2 {
+                    seq.push(HCall { h: 1, call: Call::Bind { v1: 0, v2: 4, a: l(2) } });
+                }
+                seq.push(HCall { h: 1, call: Call::Bind { v1: 4, v2: 3, a: l(3) } });
+                seq.push(HCall { h: 1, call: Call::Bind { v1: 3, v2: 5, a: l(4) } });
+                if kind == 13 {
+                    seq.push(HCall { h: 1, call: Call::Bind { v1: 5, v2: 0, a: l(1) } });   // a cycle back to the root
+                    seq.push(HCall { h: 1, call: Call::Put { v: 3, d: datas[4].clone() } });
+                }
+                seq.push(HCall { h: 0, call: Call::Merge { src: 1, left: 0, right: 0 } });
+                for c in seq {
+                    let _ = rec.call(&mut w, c);
+                }
+                for _ in 0..rng.gen_range(4..14) {
+                    let pres = w.g(0).keys().unwrap_or_default();
+                    let c = match rng.gen_range(0..8) {
+                        0 => Call::Add { v: rng.gen_range(0..8.min(o.cap)) },
+                        1 if !pres.is_empty() => Call::Data { v: *pres.choose(&mut rng).unwrap() },
+                        2 if !pres.is_empty() => Call::Put { v: *pres.choose(&mut rng).unwrap(), d: datas[6].clone() },
+                        3 => Call::Clone { dst: 2 },
+                        4 => Call::Reload { dst: 2 },
+                        5 if !pres.is_empty() => Call::Slice { dst: 2, v: *pres.choose(&mut rng).unwrap(), p: Pred::All },
+                        6 => Call::NextId,
+                        7 if pres.len() >= 2 => Call::Bind { v1: pres[0], v2: pres[pres.len() - 1], a: l(5) },
+                        _ => continue,
+                    };
+                    let _ = rec.call(&mut w, HCall { h: 0, call: c });
+                    let _ = w.g(0).debug();
+                    let _ = w.g(0).to_xml();
+                    let _ = w.g(0).inspect(0);
+                }
+                continue;
+            }
             // prefix
             let plen = rng.gen_range(3..40);
             let mut alive_ok = true;
